@@ -221,7 +221,7 @@ def main():
             "and undoes it (`git checkout -- .`); `run --scratch` does the same on a scratch copy (`VERIF_REPO`) so that runs can go in parallel. "
             f"**{own} of the {total} are detected by the quick check of their own property** (`result_quick.json`, current checks), {other} by the check of the "
             f"property whose defect class it is (`C17_j` by C04, `C07_r` by C18, `C07_x` by C14 and C15, `C15_z` by C07); the {outside} that are not detected need a "
-            "situation outside the property's quantifier (one is below the numeric resolution of the specification) and are marked in the table" + (f"; {lost} (`C19_e`) is inside the quantifier and currently NOT detected - an open gap of the C19 driver, see its row. " if lost else ". ") + "
+            "situation outside the property's quantifier (one is below the numeric resolution of the specification) and are marked in the table" + (f"; {lost} (`C19_e`) is inside the quantifier and currently NOT detected - an open gap of the C19 driver, see its row. " if lost else ". ") +
             "The checks as they stood when a round arrived missed " + ", ".join(f"{firsts[r]} of round {r}" for r in sorted(firsts)) + " (`result_first.json`); each miss was a gap in what the *drivers* "
             "exercised, closed as noted - the specifications' obligations were not changed for any of them and no check was loosened. "
             "Two patches (`C05_b`, `C05_c`) were re-based onto the hook commit (`patch_before_hook.diff` keeps the original).\n\n"
